@@ -66,7 +66,15 @@ def gen_case(rng, k):
     fk = ("poisson", "gauss", "const", "zero", "hot", "negative", "disks", "huge")[k % 8]
     if k % 11 == 5:
         fk = ("int16_span", "int8_span")[(k // 11) % 2]
-    return {"seed": int(rng.integers(1 << 30)), "pattern": pat, "shape": shape, "frame_kind": fk,
+    pdt = "int64"
+    if k % 4 == 2:
+        # peak positions kept by the caller in an unsigned / narrow integer dtype (all inside the frame, some closer to the top or
+        # left edge than the crop size: their windows start at negative coordinates)
+        pdt = ("uint8", "uint16", "uint32", "int16", "uint64")[(k // 4) % 5]
+        peaks = np.stack([rng.integers(0, shape[0], n), rng.integers(0, shape[1], n)], axis=1)
+        peaks[0] = (int(rng.integers(0, min(c, shape[0]))), int(rng.integers(0, shape[1])))
+        peaks[-1] = (int(rng.integers(0, shape[0])), int(rng.integers(0, min(c, shape[1]))))
+    return {"seed": int(rng.integers(1 << 30)), "pattern": pat, "shape": shape, "frame_kind": fk, "peaks_dtype": pdt,
             "peaks": peaks.tolist(), "b": int(rng.integers(1, n + 3)),
             "upsample": [False, True, 2, 3, 7, 20, 50][k % 7], "backend": "slicing" if k % 5 in (0, 3) else "pixel"}
 
@@ -122,7 +130,7 @@ def run_case(kind, p):
     pattern = impl.pattern_from(p["pattern"])
     c = pattern.get_crop_size()
     frame = make_frame(rng, tuple(p["shape"]), p["frame_kind"])
-    peaks = np.asarray(p["peaks"], dtype=np.int64)
+    peaks = np.asarray(p["peaks"], dtype=p.get("peaks_dtype", "int64"))
     us = p["upsample"]
     usf = 20 if us is True else (int(us) if us else 0)
     cf = bc.crop_disks_from_frame_slicing if p["backend"] == "slicing" else bc.crop_disks_from_frame
